@@ -131,6 +131,8 @@ func genC06(g *Gen) {
 	}
 	for i := 0; i < g.scale(300, 5000); i++ {
 		g.add("encja " + g.key() + " " + g.genJoinFrame("JA", true))
+		// ... and the join-accept payload (CFList included) decoded from the bytes its encoder produced
+		g.add("jart " + g.genJoinFrame("JA", true))
 	}
 }
 
@@ -340,8 +342,13 @@ func genC02(g *Gen) {
 				withMIC := replaceMIC(f, res[3:])
 				g.add("valup " + args + " " + withMIC)
 				g.add("valup " + args + " " + f)
+				g.add("valup " + args + " " + replaceMIC(f, nearMIC(res[3:], i/2)))
 				keys := strings.Fields(args)
 				g.add("valupf " + keys[4] + " " + withMIC)
+				// the receiver takes the frame for the other direction (same key, as in LoRaWAN 1.0): the specification's MIC differs
+				// in its direction byte, so validation must fail
+				g.add(fmt.Sprintf("valdown %d %d %s ", ver, conf, keys[4]) + withMIC)
+				g.add(fmt.Sprintf("valdown %d %d %s ", ver, conf, keys[5]) + withMIC)
 			} else { // the MIC cannot be computed (frame not serialisable): validation must report the error, not false
 				g.add("valup " + args + " " + f)
 				g.add("valupf " + strings.Fields(args)[4] + " " + f)
@@ -353,6 +360,9 @@ func genC02(g *Gen) {
 			if strings.HasPrefix(res, "ok x") {
 				g.add("valdown " + args + " " + replaceMIC(f, res[3:]))
 				g.add("valdown " + args + " " + f)
+				g.add("valdown " + args + " " + replaceMIC(f, nearMIC(res[3:], i/2)))
+				k := strings.Fields(args)[2]
+				g.add(fmt.Sprintf("valup %d %d %d %d %s %s ", ver, conf, g.r.Intn(256), g.r.Intn(256), k, k) + replaceMIC(f, res[3:]))
 			} else {
 				g.add("valdown " + args + " " + f)
 			}
@@ -373,6 +383,16 @@ func replaceMIC(frame, mic string) string {
 	t := strings.Fields(frame)
 	t[2] = mic
 	return strings.Join(t, " ")
+}
+
+// nearMIC flips one bit (number i mod 32) of a 4-byte MIC token: a MIC that is right in all but one bit must be refused.
+func nearMIC(mic string, i int) string {
+	b, err := unhx(mic)
+	if err != nil || len(b) != 4 {
+		return mic
+	}
+	b[(i%32)/8] ^= 1 << uint(i%8)
+	return hx(b)
 }
 
 // ---- C03: encryption
@@ -443,6 +463,7 @@ func genC04(g *Gen) {
 			if strings.HasPrefix(res, "ok x") {
 				g.add("valjoin " + k + " " + replaceMIC(f, res[3:]))
 				g.add("valjoin " + k + " " + f)
+				g.add("valjoin " + k + " " + replaceMIC(f, nearMIC(res[3:], i/3)))
 			}
 		default:
 			f := g.genJoinFrame("JA", i%10 != 0)
@@ -452,6 +473,7 @@ func genC04(g *Gen) {
 			if strings.HasPrefix(res, "ok x") {
 				fm := replaceMIC(f, res[3:])
 				g.add("valja " + args + " " + fm)
+				g.add("valja " + args + " " + replaceMIC(f, nearMIC(res[3:], i)))
 				g.add("encja " + k + " " + fm)
 				res2 := execOp("encja " + k + " " + fm)
 				if strings.HasPrefix(res2, "ok ") {
@@ -492,6 +514,14 @@ func genC05(g *Gen) {
 		// tampering: one single-bit corruption / one parameter mismatch per extra op
 		for k := 0; k < g.scale(2, 6); k++ {
 			g.add("exchange " + args + " " + strconv.Itoa(1+g.r.Intn(1<<20)) + " " + f)
+		}
+		// the receiver takes the frame for the other direction: with distinct keys, and with one key for both directions (LoRaWAN 1.0),
+		// where only the direction byte of the MIC block tells the two apart
+		if i%4 < 2 {
+			k := g.key()
+			same := fmt.Sprintf("%d %d %d %d %s %s %s %s", i%4, g.r.U32Edge(), g.r.Intn(256), g.r.Intn(256), k, k, g.key(), g.key())
+			g.add("exchange " + same + " 1099511627776 " + f)
+			g.add("exchange " + args + " 1099511627776 " + f)
 		}
 	}
 }
